@@ -714,6 +714,9 @@ func rulesC02(c *Ctx) {
 	binPrintC03(c, "C02.binprint")
 	silentPathRule(c, "C02.silentpath")
 	openerRule(c, "C02.opener")
+	printGateRule(c, "C02.gate")
+	quoteArgsRule(c, "C02.quoteargs")
+	strconvRule(c, "C02.strconv")
 	// printing a node reads nothing but the node: a scratch buffer shared by
 	// all printers is overwritten by the nested calls of one print
 	c.Rule("C02.pure", "the String methods of the AST nodes (and what they call in the package) read no mutable package-level state: the text depends on the node alone (a package-level scratch slice reused by a recursive printer is overwritten by the inner call, so `ratio(usage, mean(idle))` prints as `ratio(idle, mean(idle))`)")
@@ -747,6 +750,8 @@ func rulesC01(c *Ctx) {
 	dispatchC01(c)
 	tablesC01(c)
 	optionsC01(c)
+	strconvRule(c, "C01.strconv")
+	charWidthRule(c, "C01.charwidth")
 	// how operators group is part of the AST a text denotes
 	importRules(c, rulesC03, "C03.", "C01.grouping-", func(r string) bool {
 		// print-and-reparse clauses belong to C02/C03; the tree x / (-1 * a) that
